@@ -127,6 +127,24 @@ def step (st : St) (line : String) : St × String :=
             | (.ok, some s) => (st, fmt (qs.map fun x => s.nearestTri (triAt wa) x dblMax))
             | (e, _) => (st, statusName e)
       | _, _ => (st, "bad-op")
+  | "walldistq" :: m :: nqd :: ws => match m.toNat?, nqd.toNat?, parseFs? ws with
+      | some mask, some nquad, some fs =>
+          if mask < 1 || mask > 7 || nquad > 1000 || fs.length < 12 * nquad || (fs.length - 12 * nquad) % 3 != 0 then
+            (st, "bad-op") else
+          let isWall (i : Nat) : Bool := (mask >>> (i % 3)) % 2 == 1
+          let qpts := (ptsOf (fs.take (12 * nquad))).toArray
+          let quadAt (j : Nat) : V3 F × V3 F × V3 F × V3 F :=
+            (qpts.getD (4 * j) zero3, qpts.getD (4 * j + 1) zero3, qpts.getD (4 * j + 2) zero3, qpts.getD (4 * j + 3) zero3)
+          let qs := ptsOf (fs.drop (12 * nquad))
+          let wtris := ((List.range st.tris.size).filter isWall).map fun i => st.tris.getD i (zero3, zero3, zero3)
+          let wquads := ((List.range nquad).filter isWall).map quadAt
+          let wa := (localWall3 wtris wquads).toArray
+          let fmt (ds : List F) := "ok" ++ String.join (ds.map fun d => " " ++ fmtF d)
+          match wallBuild (Int.ofNat wa.size) (fun c => let t := triAt wa c; [t.1, t.2.1, t.2.2])
+              ((List.range wa.size).map Int.ofNat) with
+          | (.ok, some s) => (st, fmt (qs.map fun x => s.nearestTri (triAt wa) x dblMax))
+          | (e, _) => (st, statusName e)
+      | _, _, _ => (st, "bad-op")
   | "d2" :: ws => match parseFs? ws with
       | some [a, b, c, d, e, f, x, y, z] => (st, fmtF (dist2seg (v3 a b c) (v3 d e f) (v3 x y z)))
       | _ => (st, "bad-op")
